@@ -33,35 +33,80 @@ logging.disable(logging.CRITICAL)
 
 
 # ------------------------------------------------------------------------------------- snapshots
-def snap(o, depth=0, seen=None):
-    """structural, order-preserving (lists) / order-free (sets, dicts) canonical form"""
+_KIND = {}   # type -> (kind, field names): every test below depends on the TYPE of the object only
+
+
+def _kind_of(o):
+    t = type(o)
+    if issubclass(t, (int, str, bytes, float, bool, type(None), Decimal)):
+        return ("atom", None)
+    if issubclass(t, enum.Enum):
+        return ("enum", None)
+    if isinstance(o, logging.Logger) or inspect.isroutine(o) or inspect.isclass(o) or inspect.ismodule(o):
+        return ("opaque", None)
+    if issubclass(t, list):
+        return ("list", None)
+    if issubclass(t, tuple):
+        return ("tuple", None)
+    if issubclass(t, (set, frozenset)):
+        return ("set", None)
+    if issubclass(t, dict):
+        return ("dict", None)
+    if issubclass(t, bytearray):
+        return ("bytearray", None)
+    if dataclasses.is_dataclass(o):
+        return ("dc", tuple(f.name for f in dataclasses.fields(o) if f.name != "_log"))
+    if hasattr(o, "__dict__"):
+        return ("obj", None)
+    return ("opaque", None)
+
+
+def snap(o, depth=0, seen=None, memo=None):
+    """structural, order-preserving (lists) / order-free (sets, dicts) canonical form.  `memo` (id -> form) may be
+    shared by the snapshots of ONE pass, during which nothing runs that could change an object: values that share
+    sub-objects (a map and its edited copies share most sections) are then walked once"""
+    t = type(o)
+    k = _KIND.get(t)
+    if k is None:
+        k = _KIND[t] = _kind_of(o)
+    kind, names = k
+    if kind == "atom":
+        return o
+    if kind == "enum":
+        return ("E", t.__name__, o.name)
+    if kind == "opaque":
+        return ("opaque", t.__name__)
+    oid = id(o)
+    if memo is not None:
+        r = memo.get(oid)
+        if r is not None:
+            return r
     if seen is None:
         seen = set()
-    if isinstance(o, (int, str, bytes, float, bool, type(None), Decimal)):
-        return o
-    if isinstance(o, enum.Enum):
-        return ("E", type(o).__name__, o.name)
-    if isinstance(o, logging.Logger) or inspect.isroutine(o) or inspect.isclass(o) or inspect.ismodule(o):
-        return ("opaque", type(o).__name__)
-    oid = id(o)
     if oid in seen or depth > 60:
         return ("cycle",)
-    seen = seen | {oid}
-    if isinstance(o, list):
-        return ("list", tuple(snap(x, depth + 1, seen) for x in o))
-    if isinstance(o, tuple):
-        return ("tuple", tuple(snap(x, depth + 1, seen) for x in o))
-    if isinstance(o, (set, frozenset)):
-        return ("set", tuple(sorted((repr(snap(x, depth + 1, seen)) for x in o))))
-    if isinstance(o, dict):
-        return ("dict", tuple(sorted(((repr(snap(k, depth + 1, seen)), repr(snap(v, depth + 1, seen))) for k, v in o.items()))))
-    if isinstance(o, bytearray):
-        return ("bytearray", bytes(o))
-    if dataclasses.is_dataclass(o):
-        return (type(o).__name__, tuple((f.name, snap(getattr(o, f.name), depth + 1, seen)) for f in dataclasses.fields(o) if f.name != "_log"))
-    if hasattr(o, "__dict__"):
-        return (type(o).__name__, tuple(sorted((k, repr(snap(v, depth + 1, seen))) for k, v in vars(o).items() if k not in ("log", "_log", "_LOG"))))
-    return ("opaque", type(o).__name__)
+    seen.add(oid)
+    try:
+        d = depth + 1
+        if kind == "list":
+            r = ("list", tuple(snap(x, d, seen, memo) for x in o))
+        elif kind == "tuple":
+            r = ("tuple", tuple(snap(x, d, seen, memo) for x in o))
+        elif kind == "set":
+            r = ("set", tuple(sorted((repr(snap(x, d, seen, memo)) for x in o))))
+        elif kind == "dict":
+            r = ("dict", tuple(sorted(((repr(snap(k2, d, seen, memo)), repr(snap(v, d, seen, memo))) for k2, v in o.items()))))
+        elif kind == "bytearray":
+            r = ("bytearray", bytes(o))
+        elif kind == "dc":
+            r = (t.__name__, tuple((n, snap(getattr(o, n), d, seen, memo)) for n in names))
+        else:
+            r = (t.__name__, tuple(sorted((k2, repr(snap(v, d, seen, memo))) for k2, v in vars(o).items() if k2 not in ("log", "_log", "_LOG"))))
+    finally:
+        seen.discard(oid)
+    if memo is not None:
+        memo[oid] = r
+    return r
 
 
 def describe_diff(a, b, path="arg"):
@@ -96,11 +141,13 @@ class Watch:
                 return fn(*a, **kw)
             watch.depth += 1
             try:
-                before = [snap(x) for x in a] + [snap(kw[k]) for k in sorted(kw)]
+                m0 = {}
+                before = [snap(x, memo=m0) for x in a] + [snap(kw[k], memo=m0) for k in sorted(kw)]
                 try:
                     return fn(*a, **kw)
                 finally:
-                    after = [snap(x) for x in a] + [snap(kw[k]) for k in sorted(kw)]
+                    m1 = {}
+                    after = [snap(x, memo=m1) for x in a] + [snap(kw[k], memo=m1) for k in sorted(kw)]
                     watch.calls[qual] = watch.calls.get(qual, 0) + 1
                     for i, (x, y) in enumerate(zip(before, after)):
                         if x != y:
@@ -146,12 +193,15 @@ class Watch:
         self.values.append((label, obj, snap(obj)))
 
     def verify_all(self, step):
+        fresh = []
+        memo = {}
         for label, obj, s in self.values:
-            now = snap(obj)
+            now = snap(obj, memo=memo)
             if now != s:
                 self.found.append({"function": "(after step) " + step, "value": label, "diff": describe_diff(s, now, label)})
-        # keep the current state as the reference so one mutation is reported once
-        self.values = [(label, obj, snap(obj)) for label, obj, _ in self.values]
+            # keep the current state as the reference so one mutation is reported once
+            fresh.append((label, obj, now))
+        self.values = fresh
 
 
 # ------------------------------------------------------------------------------------- driving
@@ -182,6 +232,7 @@ def drive(watch, out, rng, spec, tier):
     for i in range(nmaps):
         data, _ = gen.gen("editor" if i % 2 == 0 else "valid", [None, "mrgn64", "uprp-prefilled"][i % 3] if i % 2 == 0 else None)
         maps.append(("gen:%d" % i, data))
+    maps.append(("gen:bare", gen.gen("valid", "bare")[0]))   # no UPRP / UPUS / SWNM: the save has to create them
     if tier == "thorough":
         import glob
 
@@ -257,7 +308,8 @@ def drive(watch, out, rng, spec, tier):
                 step("DecodedStrSectionEditor.add_strings_to_str_section (again)", DecodedStrSectionEditor().add_strings_to_str_section, ["third"], s2)
         cur = rich
         if trig is not None:
-            new = [real.trigger(author.trigger()) for _ in range(2)]
+            # (one trigger made of pass-through entries only: its lists hold no rich object at all)
+            new = [real.trigger(author.trigger()) for _ in range(2)] + [real.trigger(author.trigger(nc=2, na=3, raw_p=1.0))]
             watch.remember("authored triggers", new)
             step("RichTrigEditor.add_triggers (tuple)", RichTrigEditor.add_triggers, tuple(new), trig)
             t2 = step("RichTrigEditor.add_triggers", RichTrigEditor.add_triggers, new, trig)
@@ -341,19 +393,21 @@ def query_calls(step, maps, dec):
         for s in c.chk_sections:
             if isinstance(s, RichWavSection):
                 paths = [w.path_in_chk.value for w in s.wavs]
-                for pth in paths[:1] + paths[-1:] + ["staredit\\wav\\not there.wav"]:
+                for pth in paths[-1:] + ["staredit\\wav\\not there.wav"]:
                     step("WavQueryUtil.find_only_wav_by_basename (%s)" % which, WavQueryUtil.find_only_wav_by_basename, pth.split("\\")[-1], c)
                     step("WavQueryUtil.find_only_wav_by_exact_match (%s)" % which, WavQueryUtil.find_only_wav_by_exact_match, pth, c)
                 break
         for s in c.chk_sections:
             if isinstance(s, RichMrgnSection):
-                names = [l.custom_location_name.value for l in s.locations if l.custom_location_name.value][:2] + ["no such place"]
+                names = [l.custom_location_name.value for l in s.locations if l.custom_location_name.value][:1] + ["no such place"]
+                if k == 1:
+                    break
                 for nm in names:
                     step("MrgnQueryUtil.find_location_by_name (%s)" % which, MrgnQueryUtil.find_location_by_name, nm, s)
-                    step("MrgnQueryUtil.find_location_by_name (%s, case-sensitive)" % which, MrgnQueryUtil.find_location_by_name, nm.upper(), s, False)
                     step("MrgnQueryUtil.find_location_by_fuzzy_search (%s)" % which, MrgnQueryUtil.find_location_by_fuzzy_search, nm, s)
+                step("MrgnQueryUtil.find_location_by_name (%s, case-sensitive)" % which, MrgnQueryUtil.find_location_by_name, names[0].upper(), s, False)
                 break
-        for nm in (ChkSectionName.TRIG, ChkSectionName.WAV, ChkSectionName.MRGN):
+        for nm in (ChkSectionName.WAV,):
             step("ChkQueryUtil.determine_if_rich_chk_contains_section (%s)" % which, ChkQueryUtil.determine_if_rich_chk_contains_section, nm, c)
     for nm in (ChkSectionName.TRIG, ChkSectionName.STR):
         step("ChkQueryUtil.determine_if_chk_contains_section", ChkQueryUtil.determine_if_chk_contains_section, nm, dec)
